@@ -3,9 +3,11 @@
    i128_div_mod_floor(x, y)          i128_div_mod_floor pf x y
    round_quot(quot, rem, divisor, m) round_quot pf quot rem divisor m   (Option<i128>)
    i128_div_rounded(n, d, None)      i128_div_rounded pf n d m
+   i128_shifted_div_rounded(n,p,d,None)     i128_shifted_div_rounded pf n p d m      (Option<i128>)
+   i128_mul_div_ten_pow_rounded(x,y,p,None) i128_mul_div_ten_pow_rounded pf x y p m  (Option<i128>)
    The argument [m] is the value the code obtains from RoundingMode::default()
    (every caller in the crate passes `None`). *)
-From FP Require Import Machine SrcConsts Pow10.
+From FP Require Import Machine SrcConsts Pow10 WideDiv.
 
 Definition i128_div_mod_floor (pf : profile) (x y : Z) : res (Z * Z) :=
   q <- t_div I128 x y ;;
@@ -62,4 +64,22 @@ Definition i128_div_rounded (pf : profile) (divident divisor : Z) (m : mode) : r
   match o with
   | Some q => Val q
   | None => Panic   (* unreachable!() *)
+  end.
+
+Definition i128_shifted_div_rounded (pf : profile) (divident p divisor : Z) (m : mode) : res (option Z) :=
+  '(dd, dv) <- (if divisor <? 0
+                then a <- ck_neg pf I128 divident ;; b <- ck_neg pf I128 divisor ;; Val (a, b)
+                else Val (divident, divisor)) ;;
+  o <- i128_shifted_div_mod_floor pf dd p dv ;;
+  match o with
+  | None => Val None
+  | Some (quot, rem) => round_quot pf quot (cast U128 rem) (cast U128 dv) m
+  end.
+
+Definition i128_mul_div_ten_pow_rounded (pf : profile) (x y p : Z) (m : mode) : res (option Z) :=
+  divisor <- ten_pow p ;;
+  o <- i256_div_mod_floor pf x y divisor ;;
+  match o with
+  | None => Val None
+  | Some (quot, rem) => round_quot pf quot (cast U128 rem) (cast U128 divisor) m
   end.
